@@ -69,6 +69,10 @@ pub fn new_world() -> World {
             w.insert_by_id(concrete_id(c), Cell1(INIT_VALUES[c as usize]));
         }
     }
+    // the two same-named resource types of the statically typed twin systems (abstract resources 62, 63)
+    let tk = twin_kinds();
+    (tk[0].insert)(&mut w, 77);
+    (tk[1].insert)(&mut w, 88);
     w
 }
 
@@ -909,6 +913,69 @@ impl StaticKind for SDerMacWriteC {
         d.field.0 = old.wrapping_mul(P).wrapping_add(h);
         vec![old]
     }
+}
+
+/// Statically typed systems over two DISTINCT resource types that share one type name: the types (and the kinds
+/// that name them) are items of two sibling blocks of one function body.
+pub struct TwinKind {
+    pub add: fn(&mut shred::DispatcherBuilder<'static, 'static>, usize, u8, &Arc<Ctx>, &str, &[&str]),
+    pub leaf: fn(usize, &Arc<Ctx>) -> Box<dyn for<'a> shred::RunWithPool<'a> + Send>,
+    pub insert: fn(&mut World, u64),
+    pub id: ResourceId,
+    pub type_name: &'static str,
+}
+
+/// [Write<Twin#1>, Write<Twin#2>, Read<Twin#2>]
+pub fn twin_kinds() -> &'static [TwinKind; 3] {
+    static K: std::sync::OnceLock<[TwinKind; 3]> = std::sync::OnceLock::new();
+    K.get_or_init(|| {
+        macro_rules! twin_block {
+            () => {{
+                #[derive(Default)]
+                pub struct Twin(pub u64);
+                struct KW;
+                struct KR;
+                impl StaticKind for KW {
+                    type Data<'c> = Write<'c, Twin>;
+                    fn touch(d: &mut Self::Data<'_>, h: u64) -> Vec<u64> {
+                        let old = d.0;
+                        d.0 = old.wrapping_mul(P).wrapping_add(h);
+                        vec![old]
+                    }
+                }
+                impl StaticKind for KR {
+                    type Data<'c> = Read<'c, Twin>;
+                    fn touch(d: &mut Self::Data<'_>, _: u64) -> Vec<u64> {
+                        vec![d.0]
+                    }
+                }
+                fn add_w(b: &mut shred::DispatcherBuilder<'static, 'static>, id: usize, time: u8, ctx: &Arc<Ctx>, name: &str, deps: &[&str]) {
+                    b.add(SSys::<KW> { id, time, ctx: ctx.clone(), _k: PhantomData }, name, deps)
+                }
+                fn add_r(b: &mut shred::DispatcherBuilder<'static, 'static>, id: usize, time: u8, ctx: &Arc<Ctx>, name: &str, deps: &[&str]) {
+                    b.add(SSys::<KR> { id, time, ctx: ctx.clone(), _k: PhantomData }, name, deps)
+                }
+                fn leaf_w(id: usize, ctx: &Arc<Ctx>) -> Box<dyn for<'a> shred::RunWithPool<'a> + Send> {
+                    Box::new(SSys::<KW> { id, time: 3, ctx: ctx.clone(), _k: PhantomData })
+                }
+                fn leaf_r(id: usize, ctx: &Arc<Ctx>) -> Box<dyn for<'a> shred::RunWithPool<'a> + Send> {
+                    Box::new(SSys::<KR> { id, time: 3, ctx: ctx.clone(), _k: PhantomData })
+                }
+                fn ins(w: &mut World, v: u64) {
+                    w.insert(Twin(v))
+                }
+                let tn = std::any::type_name::<Write<'static, Twin>>();
+                (
+                    TwinKind { add: add_w, leaf: leaf_w, insert: ins, id: ResourceId::new::<Twin>(), type_name: tn },
+                    TwinKind { add: add_r, leaf: leaf_r, insert: ins, id: ResourceId::new::<Twin>(), type_name: tn },
+                )
+            }};
+        }
+        let one = twin_block!();
+        let two = twin_block!();
+        assert!(one.0.type_name == two.0.type_name && one.0.id != two.0.id, "harness: the twin types must be distinct types with one name");
+        [one.0, two.0, two.1]
+    })
 }
 
 /// A system with statically typed data; `setup` is deliberately NOT overridden (the default
